@@ -109,11 +109,27 @@ func (c *FnCtx) translateBlock(b *ssa.BasicBlock, entryItems []Item) {
 				st.arr[n] = c.freshConst(fmt.Sprintf("%s@L%d", n, b.Index), c.arrSorts[n])
 			}
 		}
+		preciseArr := map[string]bool{}
+		for _, pm := range loop.PMods {
+			preciseArr[pm.Arr] = true
+		}
 		for n := range loop.Mods {
-			if n == "*" || !c.ensureArr(n) {
+			if n == "*" || !c.ensureArr(n) || preciseArr[n] {
 				continue
 			}
 			st.arr[n] = c.freshConst(fmt.Sprintf("%s@L%d", n, b.Index), c.arrSorts[n])
+		}
+		for _, pm := range loop.PMods {
+			if !c.ensureArr(pm.Arr) {
+				continue
+			}
+			base := c.val(pm.Base)
+			idx := base.T
+			if pm.Slice {
+				idx = sx("sref", base.T)
+			}
+			fv := c.freshConst(fmt.Sprintf("%s@L%d.e", pm.Arr, b.Index), elemSortOf(c.arrSorts[pm.Arr]))
+			c.setArr(st, pm.Arr, sStore(c.arrIn(st, pm.Arr), idx, fv))
 		}
 		na := c.freshConst(fmt.Sprintf("alloc@L%d", b.Index), SInt)
 		c.assume(&bv.Items, sx("<=", st.alloc, na))
